@@ -11,8 +11,9 @@ ids probed by the per-key readers.  Fields of an op are separated by `:`.
   E      = `s` (self) | `t` (register t) | `o<pairs>` (fresh OMD) | `m<pairs>` (mapping)
            | `p<pairs>` (iterable of pairs) | `n` (no argument; constructor only)
            | `S` (list snapshot of the receiver's own pairs) | `D` (the receiver's own todict())
-  addlistx:k:values  updx:pairs  extx:pairs  newx   the argument iterable yields these items and then
-           raises (`XBoom`): materialised first / taken over pair by pair / no object constructed
+  addlistx:k:values  updx:pairs  extx:pairs  newx   the argument iterable raised (`XBoom`) after these items had been
+           taken over (as many as the implementation was SEEN to take: the statement leaves the number open; the code
+           as it is takes none for addlist, which materialises first, and everything yielded for update / update_extend)
   updmx:pairs   a mapping argument of `update` that raises after delivering these items (`XBoom`)
   nop           the caller creates, advances or drains iterators (`N`): nothing changes
   rej           a call that raises on its first look at its argument (`XReject`): nothing changes
@@ -139,7 +140,11 @@ def parseOp? (st : HState Nat Nat) (tok : String) : Option (HOp Nat Nat) :=
       if e = "n" then pure (.new none F) else
       let E ← parseArg? st e
       pure (.new (some E) F)
-  | ["addlistx", k, vs] => do pure (.addlistAbort (← k.toNat?) (← natList? vs))
+  | ["addlistx", k, vs] => do
+      -- the values listed are the ones that were TAKEN OVER before the argument raised (the statement does not say how
+      -- many that must be; the code as it is materialises the argument first and takes none: `addlistAbort`)
+      let vs ← natList? vs
+      if vs.isEmpty then pure (.addlistAbort (← k.toNat?) []) else pure (.addlist (← k.toNat?) vs)
   | ["updx", l] => do pure (.updateAbort (← parsePairs? l))
   | ["extx", l] => do pure (.updateExtendAbort (← parsePairs? l))
   | ["updmx", l] => do pure (.updateMapAbort (← parsePairs? l))
@@ -247,7 +252,7 @@ def ownTok (st st' : HState Nat Nat) (o : Own Nat Nat) (tok : String) : Own Nat 
     | ["newx"] => some o
     | ["rej"] => some o
     | ["nop"] => some o
-    | ["addlistx", _, _] => some o
+    | ["addlistx", k, vs] => do pure (o.addlistVals (← k.toNat?) (← natList? vs))
     | _ => none
   match r with
   | some o' => o'
@@ -269,7 +274,7 @@ def stepTok (nk : Nat) (st : HState3 Nat Nat) (o : Own Nat Nat) (tok : String) :
   | some op =>
     let r := hstep3 st op
     let o' := ownDumpScribbles nk (ownTok st.abs r.1.abs o tok)
-    some (r.1, o', s!"{if tok = "rej" then "XReject" else showOut r.2} {dump nk r.1} OW{showOwn o'}")
+    some (r.1, o', s!"{if tok = "rej" then "XReject" else if tok.startsWith "addlistx:" then "XBoom" else showOut r.2} {dump nk r.1} OW{showOwn o'}")
   | none => match query? st.abs tokM with
     | some out =>
       let o' := ownDumpScribbles nk (ownTok st.abs st.abs o tok)
